@@ -481,7 +481,8 @@ def tainted_vars(func):
     """Local pointer variables (name, decl position) that point into a bounded, non NUL-terminated buffer."""
     t = set()
     ps = func.params
-    if func.base.rsplit("::", 1)[-1] in RAW_PARAM_FUNCS:
+    # (also the constructors of the stream buffers that are laid over such a text: RawStreamBuf(ptr, len) ...)
+    if func.base.rsplit("::", 1)[-1] in RAW_PARAM_FUNCS or (func.d.get("ctor") and "StreamBuf" in func.base):
         for i, p in enumerate(ps[:-1]):
             if p["type"].replace(" ", "") in ("constchar*", "char*") and "size_t" in ps[i + 1]["type"]:
                 t.add(p["name"])
